@@ -1,17 +1,26 @@
 import GaeaVerif.Model.LexC17
 import GaeaVerif.Model.UnicodeC21
+import GaeaVerif.Model.StmtBind
 /-
   Model for C21 (read-only users cannot change data or schema):
   `parser.Preview`, `parser.PreviewSpecialComment`, `StripLeadingComments`,
-  `SplitMarginComments` (/repo/parser/analyzer.go, comments.go) with the Go
-  `strings`/`unicode` functions they use, and `isSQLNotAllowedByUser`,
-  `checkSQLAllowed`, `doQuery`, `handleStmtExecute`
-  (/repo/proxy/server/executor.go, executor_handle.go, executor_stmt.go).
+  `SplitMarginComments`, `PreviewMainStatement`, `withMainStatement`
+  (/repo/parser/analyzer.go, comments.go) with the Go `strings`/`unicode`
+  functions they use, and `isSQLNotAllowedByUser`, `checkSQLAllowed`, `doQuery`,
+  `handleStmtExecute` with the binding of parameters (`Stmt.GetRewriteSQL`, from
+  `Model/StmtBind`) (/repo/proxy/server/executor.go, executor_handle.go,
+  executor_stmt.go).
 
   Modelled as of the repaired code (fix: commits "read-only users may not run
   REPLACE, DDL or LOAD DATA", "Preview ends the first word at any character that
   cannot continue a keyword", "StripLeadingComments also strips # comments",
-  "the read-only check looks inside a leading /*! ... */ comment").
+  "the read-only check looks inside a leading /*! ... */ comment", "read-only
+  users may not CALL stored procedures", "read-only users may not PREPARE or
+  EXECUTE statements in the text protocol", "the read-only check follows WITH to
+  the statement it leads to", "Preview skips the semicolons of empty statements in
+  front of a statement", "Preview reads a byte that is no valid UTF-8 ... as the
+  scanner of the grammar does", "a plan built from the parsed tree goes through
+  the read-only check with the type of that tree").
   The keyword tables are parameters (`Tables`): the driver uses the hand-written
   `tables` below, the theorems use the tables the translator extracts from the
   source (`Gen.c21…`), and `Props/C21` proves the two equal.  Core Lean only.
@@ -139,6 +148,25 @@ def thirdIsBang (sql : Bytes) : Bool :=
   | _ :: _ :: c :: _ => c.toNat = 0x21
   | _ => false
 
+/-- `r == ';' || unicode.IsSpace(r)`. -/
+def isLeadBlank (r : Nat) : Bool := r = 0x3B || isSpace r
+
+/-- The `for len(sql) > 0` loop of `trimLeadingBlanks`: a byte that is no valid
+    UTF-8 is read as the character of that value (`peek` of the scanner). -/
+def trimLeadLoop : Nat → Bytes → Bytes
+  | 0, s => s
+  | fuel + 1, s =>
+    match s with
+    | [] => []
+    | _ :: _ =>
+      let pk := peek s
+      if isLeadBlank pk.1 then trimLeadLoop fuel (s.drop pk.2) else s
+
+/-- `trimLeadingBlanks`: white space at both ends and, in front, the semicolons of empty statements. -/
+def trimLeadingBlanks (s : Bytes) : Bytes :=
+  let l := trimLeadLoop s.length s
+  trimRightFunc isSpace l.length l
+
 /-- The `for hasCommentPrefix(sql)` loop of `StripLeadingComments`. -/
 def stripLoop : Nat → Bytes → Bytes
   | 0, sql => sql
@@ -151,17 +179,17 @@ def stripLoop : Nat → Bytes → Bytes
           | none => sql
           | some index =>
             if thirdIsBang sql then sql
-            else stripLoop fuel (trimFunc isSpace (sql.drop (index + 4)))
+            else stripLoop fuel (trimLeadingBlanks (sql.drop (index + 4)))
         else
           match indexSub [0x0A] sql with
           | none => []
-          | some index => stripLoop fuel (trimFunc isSpace (sql.drop (index + 1)))
+          | some index => stripLoop fuel (trimLeadingBlanks (sql.drop (index + 1)))
       | [] => sql
     else sql
 
 /-- `StripLeadingComments`. -/
 def stripLeadingComments (sql : Bytes) : Bytes :=
-  stripLoop (sql.length + 1) (trimFunc isSpace sql)
+  stripLoop (sql.length + 1) (trimLeadingBlanks sql)
 
 /-- `leadingCommentEnd`. -/
 def leadingCommentEndLoop (text : Bytes) : Nat → Nat → Bool → Nat × Bool
@@ -219,6 +247,7 @@ structure Tables where
   sw3 : List (List Nat × Nat)   -- second `switch loweredFirstWord`
   unknown : Nat                  -- StmtUnknown
   comment : Nat                  -- StmtComment
+  withK : Nat                    -- StmtWith
   notAllowed : List Nat          -- kinds isSQLNotAllowedByUser rejects for a read-only user
   deriving Repr
 
@@ -265,6 +294,89 @@ def previewSpecialComment (T : Tables) (sql : Bytes) : Nat :=
   let t := stripLeadingComments sql
   preview T (specialLoop (t.length + 1) t)
 
+/-! ### `withMainStatement` / `PreviewMainStatement` -/
+
+/-- `isIdentByte`. -/
+def isIdentByte (c : UInt8) : Bool :=
+  isLetter c.toNat || isDigit c.toNat || c.toNat = 0x5F || c.toNat = 0x24 || decide (0x80 ≤ c.toNat)
+
+/-- `c == ' ' || ('\t' <= c && c <= '\r')`. -/
+def isWsByte (c : UInt8) : Bool := c.toNat = 0x20 || (0x09 ≤ c.toNat && c.toNat ≤ 0x0D)
+
+/-- `sql[i+1] == '-' && (i+2 == len(sql) || sql[i+2] <= ' ' || sql[i+2] == 0x7f)` on the text after the first dash. -/
+def dashComment (t : Bytes) : Bool :=
+  match t with
+  | d :: t' => d.toNat = 0x2D && (match t' with | x :: _ => decide (x.toNat ≤ 0x20) || x.toNat = 0x7F | [] => true)
+  | [] => false
+
+def startsStar (t : Bytes) : Bool := match t with | a :: _ => a.toNat = 0x2A | [] => false
+
+def isQuoteByte (c : UInt8) : Bool := c.toNat = 0x27 || c.toNat = 0x22 || c.toNat = 0x60
+
+/-- `word == 2 && sql[i]|0x20 == 'a' && sql[i+1]|0x20 == 's'`. -/
+def isAsWord (word : Nat) (s : Bytes) : Bool :=
+  word = 2 &&
+  (match s with
+   | a :: b :: _ => (a.toNat = 0x41 || a.toNat = 0x61) && (b.toNat = 0x53 || b.toNat = 0x73)
+   | _ => false)
+
+/-- The loop of `withMainStatement` on the unread text `sql[i:]` (the code never
+    looks behind `i`); `none` = `ok == false`. -/
+def withMainLoop : Nat → Nat → Bool → Bytes → Option Bytes
+  | 0, _, _, _ => none
+  | fuel + 1, depth, closed, s =>
+    match s with
+    | [] => none
+    | c :: t =>
+      if isWsByte c then withMainLoop fuel depth closed t
+      else if c.toNat = 0x23 ∨ (c.toNat = 0x2D ∧ dashComment t = true) then
+        match indexSub [0x0A] s with
+        | none => none
+        | some e => withMainLoop fuel depth closed (s.drop (e + 1))
+      else if c.toNat = 0x2F ∧ startsStar t = true then
+        let u := t.drop 1
+        if isPrefixB [0x21] u || isPrefixB [0x4D, 0x21] u then none
+        else
+          match indexSub cStarSlash u with
+          | none => none
+          | some e => withMainLoop fuel depth closed (u.drop (e + 2))
+      else
+        let word := spanLen isIdentByte s
+        if closed ∧ c.toNat ≠ 0x2C ∧ isAsWord word s = false then some s
+        else if word > 0 then withMainLoop fuel depth false (s.drop word)
+        else if isQuoteByte c then
+          match indexSub [c] t with
+          | none => none
+          | some e =>
+            if (t.take e).any (·.toNat = 0x5C) then none else withMainLoop fuel depth false (t.drop (e + 1))
+        else if c.toNat = 0x28 then withMainLoop fuel (depth + 1) false t
+        else if c.toNat = 0x29 then
+          if depth = 0 then none else withMainLoop fuel (depth - 1) (decide (depth - 1 = 0)) t
+        else withMainLoop fuel depth false t
+
+/-- `withMainStatement`. -/
+def withMainStatement (sql : Bytes) : Option Bytes := withMainLoop (sql.length + 1) 0 false sql
+
+/-- `specCodeStart.ReplaceAllString(t, "")`: the anchored pattern only matches a text that starts with `/*!`. -/
+def dropSpecCodeStart (t : Bytes) : Bytes :=
+  if isPrefixB cSlashStarBang t then t.drop (specCodeStartLen t) else t
+
+/-- The `for` loop of `PreviewMainStatement` (every round shortens the text). -/
+def previewMainLoop (T : Tables) : Nat → Bytes → Nat
+  | 0, sql => preview T sql
+  | fuel + 1, sql =>
+    let stmtType := preview T sql
+    if stmtType = T.comment then previewMainLoop T fuel (dropSpecCodeStart (stripLeadingComments sql))
+    else if stmtType = T.withK then
+      let t := stripLeadingComments sql
+      match withMainStatement (trimLeftFunc (fun r => !isLetterU r) t.length t) with
+      | none => T.withK
+      | some main => previewMainLoop T fuel main
+    else stmtType
+
+/-- `parser.PreviewMainStatement`. -/
+def previewMainStatement (T : Tables) (sql : Bytes) : Nat := previewMainLoop T (sql.length + 1) sql
+
 /-! ### proxy/server -/
 
 /-- `isSQLNotAllowedByUser` (`allowWrite` = `Namespace.IsAllowWrite(user)`). -/
@@ -274,7 +386,7 @@ def isSQLNotAllowedByUser (T : Tables) (allowWrite : Bool) (stmtType : Nat) : Bo
 /-- `checkSQLAllowed` with an empty SQL blacklist: `true` = the read-only error is returned. -/
 def checkSQLAllowed (T : Tables) (allowWrite : Bool) (sql : Bytes) : Bool :=
   let stmtType := preview T sql
-  let checkedType := if stmtType = T.comment then previewSpecialComment T sql else stmtType
+  let checkedType := if stmtType = T.comment ∨ stmtType = T.withK then previewMainStatement T sql else stmtType
   isSQLNotAllowedByUser T allowWrite checkedType
 
 /-- Outcome of `doQuery`: rejected by the read-only check before anything else
@@ -284,11 +396,19 @@ inductive QueryOut where
   | passed (ok : Bool)
   deriving DecidableEq, Repr
 
-/-- `doQuery`: the check is its first statement; `rest sql` stands for
-    everything after it (planning, backend execution) and says whether that
-    returned without error. -/
-def doQuery (T : Tables) (allowWrite : Bool) (rest : Bytes → Bool) (sql : Bytes) : QueryOut :=
-  if checkSQLAllowed T allowWrite sql then .rejected else .passed (rest sql)
+/-- `doQuery`: the check is its first statement; then `getPlan` builds the plan,
+    either from the text (`planned sql = none`: the fast path forwards it, or the
+    grammar does not parse it) or from the tree the parser builds, in which case
+    the kind of that tree (`stmtTypeOfNode`, `planned sql = some kind`) goes
+    through `isSQLNotAllowedByUser` as well.  `rest sql` stands for everything
+    after that (plan, backend execution) and says whether that returned without
+    error. -/
+def doQuery (T : Tables) (allowWrite : Bool) (planned : Bytes → Option Nat) (rest : Bytes → Bool) (sql : Bytes) : QueryOut :=
+  if checkSQLAllowed T allowWrite sql then .rejected
+  else
+    match planned sql with
+    | some kind => if isSQLNotAllowedByUser T allowWrite kind then .rejected else .passed (rest sql)
+    | none => .passed (rest sql)
 
 def QueryOut.noError : QueryOut → Bool
   | .passed true => true
@@ -297,28 +417,38 @@ def QueryOut.noError : QueryOut → Bool
 /-- `handleQuery` (after the QPS limiter): trailing `;` trimmed, then
     `doMultiStmts` for a multi-statement client, `doQuery` otherwise.  The
     result is the list of (text, outcome) pairs of the `doQuery` calls made. -/
-def handleQuery (T : Tables) (allowWrite multi : Bool) (rest : Bytes → Bool) (sql : Bytes) :
+def handleQuery (T : Tables) (allowWrite multi : Bool) (planned : Bytes → Option Nat) (rest : Bytes → Bool) (sql : Bytes) :
     List (Bytes × QueryOut) :=
   let sql := trimRightSemi sql
-  let dq := fun s => (doQuery T allowWrite rest s).noError
+  let dq := fun s => (doQuery T allowWrite planned rest s).noError
   if multi then
-    (doMultiStmts dq sql).executed.map fun s => (s, doQuery T allowWrite rest s)
-  else [(sql, doQuery T allowWrite rest sql)]
+    (doMultiStmts dq sql).executed.map fun s => (s, doQuery T allowWrite planned rest s)
+  else [(sql, doQuery T allowWrite planned rest sql)]
 
 /-- `handleStmtExecute` for a prepared statement whose bound text is
     `executeSQL`: "execute sql using ComQuery". -/
-def handleStmtExecute (T : Tables) (allowWrite multi : Bool) (rest : Bytes → Bool) (executeSQL : Bytes) :
-    List (Bytes × QueryOut) :=
-  handleQuery T allowWrite multi rest executeSQL
+def handleStmtExecute (T : Tables) (allowWrite multi : Bool) (planned : Bytes → Option Nat) (rest : Bytes → Bool)
+    (executeSQL : Bytes) : List (Bytes × QueryOut) :=
+  handleQuery T allowWrite multi planned rest executeSQL
+
+/-- `handleStmtExecute` for a prepared statement with parameters: the text
+    `GetRewriteSQL` makes of the statement's items and the bound arguments
+    (`Model/StmtBind`) goes through `handleQuery`; an error of the rewriting is
+    returned before anything is executed. -/
+def handleStmtExecuteBound (T : Tables) (allowWrite multi : Bool) (planned : Bytes → Option Nat) (rest : Bytes → Bool)
+    (nbe : Bool) (sqlItems : List Bytes) (args : List StmtBind.Arg) : Option (List (Bytes × QueryOut)) :=
+  match StmtBind.getRewriteSQL nbe sqlItems args with
+  | .ok executeSQL => some (handleQuery T allowWrite multi planned rest executeSQL)
+  | _ => none
 
 /-! ### the tables of the modelled source -/
 
 /-- Code points of an ASCII word (used by the oracle; the tables below spell them out so that `decide` can evaluate). -/
 def w (s : String) : List Nat := s.toList.map Char.toNat
 
-/-- The tables as they are in the modelled source: select→0, stream→1, insert→2, replace→3, update→4, delete→5, savepoint→16, lock→21, unlock→22; begin→7, start transaction→7, commit→8, rollback→9; create→6, alter→6, rename→6, drop→6, truncate→6, flush→23, set→10, show→11, use→12, explain→18, analyze→13, describe→13, desc→13, repair→13, optimize→13, release→20, rollback→19, kill→31, load→32;
-    StmtUnknown = 14, StmtComment = 15; rejected for read-only users: StmtDelete, StmtInsert, StmtUpdate,
-    StmtReplace, StmtDDL, StmtLoad. -/
+/-- The tables as they are in the modelled source: select→0, stream→1, insert→2, replace→3, update→4, delete→5, savepoint→16, lock→21, unlock→22; begin→7, start transaction→7, commit→8, rollback→9; create→6, alter→6, rename→6, drop→6, truncate→6, flush→23, set→10, show→11, use→12, explain→18, analyze→13, describe→13, desc→13, repair→13, optimize→13, release→20, rollback→19, kill→31, load→32, call→24, prepare→28, execute→29, with→33;
+    StmtUnknown = 14, StmtComment = 15, StmtWith = 33; rejected for read-only users: StmtDelete, StmtInsert, StmtUpdate,
+    StmtReplace, StmtDDL, StmtLoad, StmtCallProc, StmtPrepare, StmtExecute, StmtWith. -/
 def tables : Tables where
   sw1 := [
     ([115, 101, 108, 101, 99, 116], 0),
@@ -354,9 +484,14 @@ def tables : Tables where
     ([114, 101, 108, 101, 97, 115, 101], 20),
     ([114, 111, 108, 108, 98, 97, 99, 107], 19),
     ([107, 105, 108, 108], 31),
-    ([108, 111, 97, 100], 32)]
+    ([108, 111, 97, 100], 32),
+    ([99, 97, 108, 108], 24),
+    ([112, 114, 101, 112, 97, 114, 101], 28),
+    ([101, 120, 101, 99, 117, 116, 101], 29),
+    ([119, 105, 116, 104], 33)]
   unknown := 14
   comment := 15
-  notAllowed := [5, 2, 4, 3, 6, 32]
+  withK := 33
+  notAllowed := [5, 2, 4, 3, 6, 32, 24, 28, 29, 33]
 
 end GaeaVerif.PreviewC21
